@@ -23,7 +23,7 @@ ASSUMPTIONS = [
 ]
 BUDGET = {"quick": 85, "thorough": 900}
 FLOORS = {"reversals": {"quick": 250, "thorough": 2500}, "determinants": {"quick": 120, "thorough": 1200}, "order_fits": {"quick": 25, "thorough": 250},
-          "hastings_terms": {"quick": 120, "thorough": 1200}, "nan_region_steps": 8, "retried_then_succeeded": {"quick": 8, "thorough": 40}, "targets": 6}
+          "hastings_terms": {"quick": 120, "thorough": 1200}, "nan_region_steps": 8, "retried_then_succeeded": {"quick": 8, "thorough": 40}, "chained_reversals": {"quick": 20, "thorough": 200}, "targets": 6}
 
 TARGETS = ["gaussian", "correlated", "gamma-exp", "beta-sigmoid", "hierarchical", "phylo-unrooted", "phylo-time-ratio"]
 IDENT = ["reversal", "reversal", "volume", "order", "hastings", "hastings"]
@@ -39,7 +39,7 @@ def cases(tier, seed):
         if ident == "order" and t.startswith("phylo"):
             ident = "reversal"
         out.append({"target": t, "identity": ident, "seed": int(rng.integers(2**31)), "d": int(rng.integers(1, 9)), "split": int(rng.integers(1, 4)),
-                    "eps": float(gm.loguniform(rng, 1e-3, 0.5)), "L": int(rng.integers(1, 31)), "mass": str(rng.choice(["diag", "dense", "identity"])), "late_step_size": bool(i % 2)})
+                    "eps": float(gm.loguniform(rng, 1e-3, 0.5)), "L": int(rng.integers(1, 31)), "mass": str(rng.choice(["diag", "dense", "identity"])), "late_step_size": bool(i % 2), "restored_mass": bool(i % 3 == 0)})
     for i in range(24 if tier == "quick" else 120):
         out.append({"target": "nan-region", "identity": "nan", "seed": int(rng.integers(2**31)), "d": 2, "split": 1, "eps": 0.3, "L": 5, "mass": "identity"})
     return out
@@ -185,6 +185,25 @@ def run_case(case):
                 C["not_judged_nan"] += 1
             elif err > tol:
                 V.append(tt.viol("C16:reversal:%s:%s" % (case["target"], case["mass"]), "integrating, negating the momentum and integrating again misses the start by %.3g (tolerance %.3g; eps=%.4g, L=%d, dim=%d)" % (err, tol, eps, L, dim), **detail))
+            if case["target"] == "correlated" and not V and np.isfinite(err):
+                # trajectories chained on the same tensors, as the operator does after an accepted move, with the target changing in
+                # between (another block / a hyper-parameter moved by another operator): reversal must hold on the new target
+                integ = LeapfrogIntegrator(None, L, eps)
+                setq(q0)
+                integ(joint, params, p0.clone(), Minv)
+                dic["loc"].tensor = dic["loc"].tensor + 0.7
+                qa = getq()
+                pa = p0.flip(0).clone()
+                pb = integ(joint, params, pa.clone(), Minv).detach().clone()
+                qb = getq()
+                pc = integ(joint, params, -pb.clone(), Minv).detach().clone()
+                qc = getq()
+                C["reversals"] += 1
+                C["chained_reversals"] = C.get("chained_reversals", 0) + 1
+                err2 = max(float((qc - qa).abs().max()), float((pc + pa).abs().max()))
+                scale2 = 1.0 + float(qa.abs().max()) + float(pa.abs().max()) + float(qb.abs().max()) + float(pb.abs().max())
+                if np.isfinite(err2) and err2 > 1e-9 * scale2 * max(1.0, L / 5.0):
+                    V.append(tt.viol("C16:reversal:chained-after-target-change:%s" % case["mass"], "a trajectory started on tensors left by the previous one, after the target changed, is not reversible: misses the start by %.3g (eps=%.4g, L=%d, dim=%d)" % (err2, eps, L, dim), **detail))
         elif ident == "volume":
             z0 = torch.cat([q0, p0])
             J = np.zeros((2 * dim, 2 * dim))
@@ -265,9 +284,22 @@ def run_hastings(case, dic, joint, params, pids, M, eps, L, V, C, detail):
     def sample(mass):
         p = orig_sample(mass)
         rec["p0"] = p.detach().clone()
+        rec["mass"] = mass.detach().clone()
         return p
 
     ham.sample_momentum = sample
+    if case.get("restored_mass"):
+        # the operator is restored from a checkpoint whose mass matrix differs from the one it was constructed with
+        import json
+
+        from torchtree.core.parameter_encoder import ParameterEncoder
+
+        state = json.loads(json.dumps(op.state_dict(), cls=ParameterEncoder))
+        M2 = M * 1.7 if M.dim() == 1 else M @ M.t() / float(M.shape[0]) + 0.3 * torch.eye(M.shape[0], dtype=M.dtype)
+        state["mass_matrix"]["tensor"] = M2.tolist()
+        op.load_state_dict(state)
+        M = M2
+        C["restored_mass_matrices"] = C.get("restored_mass_matrices", 0) + 1
     orig_call = integ.__class__.__call__
 
     def call(self_, model, parameters, momentum, inv):
@@ -294,7 +326,11 @@ def run_hastings(case, dic, joint, params, pids, M, eps, L, V, C, detail):
                 V.append(tt.viol("C16:hastings-term:%s" % case["mass"], "HMCOperator.step() returned %.12g, the change in kinetic energy of the recorded momenta is %.12g" % (float(hr), expect), **detail))
                 break
             # the inverse mass matrix used must be the inverse of the mass matrix the momentum was drawn with
-            Minv_ref = 1.0 / M if M.dim() == 1 else torch.inverse(M)
+            Mdrawn = rec.get("mass", M)
+            Minv_ref = 1.0 / Mdrawn if Mdrawn.dim() == 1 else torch.inverse(Mdrawn)
+            if float((Mdrawn - M).abs().max()) > 1e-12 * float(M.abs().max()):
+                V.append(tt.viol("C16:mass-matrix-not-restored:%s" % case["mass"], "the momentum was not drawn with the mass matrix the operator was restored with", **detail))
+                break
             if float((inv - Minv_ref).abs().max()) > 1e-9 * float(Minv_ref.abs().max()):
                 V.append(tt.viol("C16:mass-matrix-mismatch:%s" % case["mass"], "the integrator was not given the inverse of the mass matrix the momentum was drawn from", **detail))
                 break
